@@ -129,10 +129,20 @@ def rows_describe(v, n, table_rows, phase, tol=1e-7):
 # ---------------------------------------------------------------------------------------------------------------
 
 
+_GL = G.tolist()
+
+
 def _mul_t(a, b):
-    x, z, k = pmul(a[0], a[1], 2 * a[2], b[0], b[1], 2 * b[2])
+    """product of two commuting signed Paulis given as (xtuple, ztuple, r) (pure Python: the operands are tiny)"""
+    k = 2 * (int(a[2]) + int(b[2]))
+    x = []
+    z = []
+    for xa, za, xb, zb in zip(a[0], a[1], b[0], b[1]):
+        k += _GL[2 * xa + za][2 * xb + zb]
+        x.append(xa ^ xb)
+        z.append(za ^ zb)
     assert k % 2 == 0, "product of commuting Hermitian Paulis must be Hermitian"
-    return tuple(int(i) for i in x), tuple(int(i) for i in z), k // 2
+    return tuple(x), tuple(z), (k // 2) % 2
 
 
 def group_elements(gens):
@@ -171,14 +181,33 @@ def all_stabilizer_states(n):
     return sorted(seen.keys())
 
 
+def _bits(e):
+    m = 0
+    for b in tuple(e[0]) + tuple(e[1]):
+        m = (m << 1) | int(b)
+    return m
+
+
+def _independent(masks):
+    """GF(2) independence of integer bit-vectors (xor basis)"""
+    basis = []
+    for m in masks:
+        for b in basis:
+            m = min(m, m ^ b)
+        if m == 0:
+            return False
+        basis.append(m)
+    return True
+
+
 def generating_sets(elements, n):
     """all ordered generating sets (n-tuples of independent elements) of the group given by its element list:
     n=1: 1, n=2: 6, n=3: 168"""
     non_id = [e for e in elements if any(e[0]) or any(e[1])]
+    masks = {e: _bits(e) for e in non_id}
     out = []
     for tup in itertools.permutations(non_id, n):
-        M = np.array([list(e[0]) + list(e[1]) for e in tup], dtype=int)
-        if core.gf2_rank(M) == n:
+        if _independent([masks[e] for e in tup]):
             out.append(list(tup))
     return out
 
@@ -216,13 +245,16 @@ def _gf2_solve(A, b):
     return x
 
 
-def complete_destabilizers(gens, variant=0):
-    """destabilizer rows (x|z) and signs for the signed stabilizer generators `gens`, so that the 2n x 2n table is a valid
-    Clifford tableau.  variant=0: one fixed completion; variant>0: a different completion drawn deterministically
-    (destabilizer i multiplied by stabilizers through a symmetric GF(2) matrix, random destabilizer signs).
-    Returns (table 2n x 2n list of lists, phase list of 2n)."""
-    n = len(gens)
-    S = np.array([list(g[0]) + list(g[1]) for g in gens], dtype=int)
+_BASE = {}
+
+
+def _base_destabilizers(S):
+    """one destabilizer completion D of the stabilizer rows S (n x 2n): S Omega D^t = I, D Omega D^t = 0 (memoised)"""
+    key = S.tobytes() + bytes([S.shape[0]])
+    hit = _BASE.get(key)
+    if hit is not None:
+        return hit
+    n = S.shape[0]
     SW = np.hstack([S[:, n:], S[:, :n]])  # S Omega
     D = np.zeros((n, 2 * n), dtype=int)
     for i in range(n):
@@ -236,6 +268,20 @@ def complete_destabilizers(gens, variant=0):
         for j in range(i):
             if C[i, j]:
                 D[i] ^= S[j]
+    if len(_BASE) > 50000:
+        _BASE.clear()
+    _BASE[key] = D
+    return D
+
+
+def complete_destabilizers(gens, variant=0):
+    """destabilizer rows (x|z) and signs for the signed stabilizer generators `gens`, so that the 2n x 2n table is a valid
+    Clifford tableau.  variant=0: one fixed completion; variant>0: a different completion drawn deterministically
+    (destabilizer i multiplied by stabilizers through a symmetric GF(2) matrix, random destabilizer signs).
+    Returns (table 2n x 2n list of lists, phase list of 2n)."""
+    n = len(gens)
+    S = np.array([list(g[0]) + list(g[1]) for g in gens], dtype=int)
+    D = _base_destabilizers(S)
     dsign = np.zeros(n, dtype=int)
     if variant:
         rng = np.random.default_rng(1000003 * variant + n)
